@@ -37,22 +37,20 @@ import (
 
 type rawFinding struct {
 	caseIdx int
-	cut     int
+	hist    []Op   // the (prefix of the) history the finding was made on
+	label   int    // snapshot label of the judged region (0: all reverted regions)
 	oracle  string // twin | twin-nodiff | accessor | stale
 	addr    common.Address
 	global  bool
 	kind    string // leaf-diff kind, or accessor name
 	item    obsItem
-	was     string
-	now     string
-	diff    *leafDiff
-	roots   map[string]string
 	raw     string
 }
 
 type Witness struct {
 	Case     Case              `json:"case"`
 	Oracle   string            `json:"oracle"`
+	Region   int               `json:"region_label"`
 	History  []string          `json:"history"`
 	Diff     *leafDiff         `json:"leaf_diff,omitempty"`
 	AllDiffs []leafDiff        `json:"all_leaf_diffs,omitempty"`
@@ -64,13 +62,35 @@ type Witness struct {
 	FromLen  int               `json:"from_history_length"`
 }
 
-func subjectOnly(cls string) string {
-	for _, m := range []string{"-after-", "-reverted-"} {
-		if i := strings.Index(cls, m); i >= 0 {
-			cls = cls[:i]
+func subjectOnly(cls string) string { return cls }
+
+// focus keeps the control operations and the operations that can touch account x
+// (a cheap first reduction step before delta debugging).
+func focus(h []Op, x common.Address) []Op {
+	xi := -1
+	for i := range uAddr {
+		if uAddr[i] == x {
+			xi = i
 		}
 	}
-	return cls
+	out := make([]Op, 0, len(h))
+	for _, o := range h {
+		f := family[o.K]
+		keep := isControl(o.K) || f == "bind"
+		if !keep && xi >= 0 && f != "refund" && f != "log" && f != "access-list" && f != "transient" && o.K != "GetRefund" && o.K != "GetLogs" {
+			keep = o.A%nUniverse == xi || (o.K == "Transfer" && o.B%nUniverse == xi)
+			if xi == idxHolder && (f == "balance-write" || f == "balance-read" || f == "suicide") {
+				keep = true
+			}
+		}
+		if xi < 0 { // binding accounts / tokB contract: FT operations and binds
+			keep = keep || f == "storage-write" || f == "touch" || f == "balance-read"
+		}
+		if keep {
+			out = append(out, o)
+		}
+	}
+	return out
 }
 
 func nesting(h []Op) int {
@@ -124,10 +144,22 @@ func lifecycle(S *runner, a common.Address) string {
 	return l + "-nonempty"
 }
 
-// evalCase runs both oracles at every revert of the history and the twin oracle
-// at its end.
+// evalCase runs, at every revert of the history: the accessor oracle, the
+// stale-revision probe and the twin oracle for that revert alone (immediately after
+// the revert, and — if that agrees — at the end of the history, which is where a
+// leak that needs later surviving operations shows). Finally the twin without any
+// reverted region at the end of the history.
 func evalCase(r *mon.Run, d account.AccountDatabase, c Case, ci int, stats bool) []rawFinding {
 	h := c.Hist
+	if p, msg := firstOutOfScopePanic(d, h); p >= 0 {
+		// judged only up to an operation that panics by itself (see firstOutOfScopePanic)
+		if stats {
+			r.Count("histories_cut_at_out_of_scope_panic", 1)
+			r.Count("out_of_scope_panic_in_"+h[p].K, 1)
+			r.Note("out-of-scope panic in %s: %s", h[p].K, msg)
+		}
+		h = h[:p]
+	}
 	rev, ok := marks(h)
 	if !ok {
 		panic("harness: generator produced a malformed history")
@@ -157,7 +189,7 @@ func evalCase(r *mon.Run, d account.AccountDatabase, c Case, ci int, stats bool)
 	var out []rawFinding
 	seen := map[string]bool{}
 	emit := func(f rawFinding) {
-		k := f.oracle + "|" + f.kind + "|" + string(f.addr[:]) + "|" + f.item.Arg
+		k := fmt.Sprint(f.oracle, "|", f.kind, "|", string(f.addr[:]), "|", f.item.Arg, "|", f.label)
 		if seen[k] {
 			return
 		}
@@ -165,91 +197,90 @@ func evalCase(r *mon.Run, d account.AccountDatabase, c Case, ci int, stats bool)
 		f.caseIdx = ci
 		out = append(out, f)
 	}
-	anyRev := false
-	for cut := 1; cut <= len(h); cut++ {
-		isRev := h[cut-1].K == "Revert"
-		if !isRev && cut != len(h) {
-			continue
+	twin := func(p []Op, label int, where string) bool {
+		th, ok := twinOf(p, label)
+		if !ok {
+			panic("harness: no twin for a well-formed history")
 		}
-		p := h[:cut]
-		if isRev {
-			anyRev = true
-			mm, n := accessorCheck(d, p)
-			r.Count("accessor_comparisons", int64(n))
-			r.Count("reverts_checked", 1)
-			for _, m := range mm {
-				f := rawFinding{cut: cut, oracle: "accessor", kind: m.Item.Acc, item: m.Item, was: m.Was, now: m.Now, global: m.Item.Addr < 0}
-				if m.Item.Addr >= 0 {
-					f.addr = obsAddr[m.Item.Addr]
-				}
-				emit(f)
-			}
-			if stats { // life-cycle classes of the accounts whose mutations this revert undoes
-				s := snapshotIndex(p)
-				S := newRunner(d)
-				S.run(p[:s])
-				done := map[int]bool{}
-				for i := s; i < cut; i++ {
-					if isMutator(p[i].K) && family[p[i].K] != "refund" && family[p[i].K] != "bind" && !done[p[i].A] {
-						done[p[i].A] = true
-						r.Count("lifecycle_"+lifecycle(S, uAddr[p[i].A%nUniverse]), 1)
-					}
-				}
-			}
-			nested := false
-			for i := snapshotIndex(p) + 1; i < cut-1; i++ {
-				if p[i].K == "Snapshot" {
-					nested = true
-				}
-			}
-			if nested {
-				probed, acc := staleAccepted(d, p)
-				r.Count("stale_revision_probes", int64(probed))
-				if acc {
-					emit(rawFinding{cut: cut, oracle: "stale", kind: "stale-revision-accepted", global: true})
-				}
-			}
-		}
-		if !anyRev {
-			continue
-		}
-		if !isRev {
-			// end of history: only new information if something survived after the last revert
-			last := 0
-			for i := range h {
-				if h[i].K == "Revert" {
-					last = i
-				}
-			}
-			if last == len(h)-1 {
-				continue
-			}
-		}
-		prv, _ := marks(p)
-		res := twinCheck(d, p, prv, c.Final)
+		res := twinCheck(d, p, th, c.Final)
 		r.Count("twin_root_comparisons", 1)
-		if res.mismatch() {
-			roots := map[string]string{"intermediate_original": res.irO.Hex(), "intermediate_twin": res.irT.Hex(),
-				"commit_original": res.crO.Hex(), "commit_twin": res.crT.Hex()}
-			if len(res.diffs) == 0 {
-				emit(rawFinding{cut: cut, oracle: "twin-nodiff", kind: "no-leaf-diff:" + res.dumpErr, global: true, roots: roots})
+		r.Count("twin_root_comparisons_"+where, 1)
+		if !res.mismatch() {
+			return false
+		}
+		switch {
+		case res.twinPanic != "":
+			emit(rawFinding{hist: p, label: label, oracle: "twin-panic", kind: "twin-execution-panics", global: true})
+		case len(res.diffs) == 0:
+			emit(rawFinding{hist: p, label: label, oracle: "twin-nodiff", kind: "no-leaf-diff", global: true})
+		}
+		for i := range res.diffs {
+			df := res.diffs[i]
+			emit(rawFinding{hist: p, label: label, oracle: "twin", kind: df.Kind, addr: df.Addr})
+		}
+		return true
+	}
+	local := false
+	for j := range h {
+		if h[j].K != "Revert" {
+			continue
+		}
+		p := h[:j+1]
+		label := h[j].ID
+		mm, n := accessorCheck(d, p)
+		r.Count("accessor_comparisons", int64(n))
+		r.Count("reverts_checked", 1)
+		for _, m := range mm {
+			f := rawFinding{hist: p, label: label, oracle: "accessor", kind: m.Item.Acc, item: m.Item, global: m.Item.Addr < 0}
+			if m.Item.Addr >= 0 {
+				f.addr = obsAddr[m.Item.Addr]
 			}
-			for i := range res.diffs {
-				df := res.diffs[i]
-				emit(rawFinding{cut: cut, oracle: "twin", kind: df.Kind, addr: df.Addr, diff: &df, roots: roots})
+			emit(f)
+		}
+		s := snapshotIndex(p)
+		if stats { // life-cycle classes of the accounts whose mutations this revert undoes
+			S := newRunner(d)
+			S.run(p[:s])
+			done := map[int]bool{}
+			for i := s; i <= j; i++ {
+				if isMutator(p[i].K) && family[p[i].K] != "refund" && family[p[i].K] != "bind" && !done[p[i].A] {
+					done[p[i].A] = true
+					r.Count("lifecycle_"+lifecycle(S, uAddr[p[i].A%nUniverse]), 1)
+				}
 			}
 		}
+		nested := false
+		for i := s + 1; i < j; i++ {
+			if p[i].K == "Snapshot" {
+				nested = true
+			}
+		}
+		if nested {
+			probed, acc := staleAccepted(d, p)
+			r.Count("stale_revision_probes", int64(probed))
+			if acc {
+				emit(rawFinding{hist: p, label: label, oracle: "stale", kind: "stale-revision-accepted", global: true})
+			}
+		}
+		if twin(p, label, "after_revert") {
+			local = true
+		} else if j+1 < len(h) && twin(h, label, "end_of_history") {
+			local = true
+		}
+	}
+	if !local && len(h) > 0 { // all reverted regions removed at once; only new information if no single region already differs
+		twin(h, 0, "all_regions")
 	}
 	for i := range out {
 		f := &out[i]
-		p := h[:f.cut]
-		cls := subjectOnly(classify(d, p, f.addr, f.global))
-		// families of reverted operations aimed at the account (coarse, pre-minimisation)
-		prv, _ := marks(p)
+		_, cls := classify(d, f.hist, f.addr, f.global, false, f.label)
+		// families of the reverted operations aimed at the account (coarse, pre-minimisation)
 		fams := map[string]bool{}
-		for j, o := range p {
-			if prv[j] && family[o.K] != "" && (f.global || uAddr[o.A%nUniverse] == f.addr) {
-				fams[family[o.K]] = true
+		if s, e, ok := regionBounds(f.hist, f.label); ok {
+			for _, o := range f.hist[s : e+1] {
+				if family[o.K] != "" && (f.global || uAddr[o.A%nUniverse] == f.addr) {
+					fams[family[o.K]] = true
+				}
 			}
 		}
 		f.raw = f.oracle + "|" + f.kind + "|" + cls + "|" + famList(fams)
@@ -259,7 +290,11 @@ func evalCase(r *mon.Run, d account.AccountDatabase, c Case, ci int, stats bool)
 
 // reduce minimises one raw finding and reports it under its class signature.
 func reduce(r *mon.Run, d account.AccountDatabase, c Case, f rawFinding, budget int) {
-	h := append([]Op(nil), c.Hist[:f.cut]...)
+	reduceDepth(r, d, c, f, budget, 0)
+}
+
+func reduceDepth(r *mon.Run, d account.AccountDatabase, c Case, f rawFinding, budget int, depth int) {
+	h := append([]Op(nil), f.hist...)
 	fm := c.Final
 	safe := func(p func() bool) (ok bool) {
 		defer func() {
@@ -269,44 +304,58 @@ func reduce(r *mon.Run, d account.AccountDatabase, c Case, f rawFinding, budget 
 		}()
 		return p()
 	}
+	twinPred := func(fm finalMode, want func(*twinResult) bool) func([]Op) bool {
+		return func(c []Op) bool {
+			return safe(func() bool {
+				if len(c) == 0 {
+					return false
+				}
+				th, ok := twinOf(c, f.label)
+				if !ok {
+					return false
+				}
+				if p, _ := firstOutOfScopePanic(d, c); p >= 0 {
+					return false
+				}
+				return want(twinCheck(d, c, th, fm))
+			})
+		}
+	}
+	endsWithRegion := func(c []Op) bool {
+		if _, ok := marks(c); !ok || len(c) == 0 || c[len(c)-1].K != "Revert" || c[len(c)-1].ID != f.label {
+			return false
+		}
+		p, _ := firstOutOfScopePanic(d, c)
+		return p < 0
+	}
 	var pred func(fm finalMode) func([]Op) bool
 	switch f.oracle {
 	case "twin":
 		pred = func(fm finalMode) func([]Op) bool {
-			return func(c []Op) bool {
-				return safe(func() bool {
-					rv, ok := marks(c)
-					if !ok || len(c) == 0 {
-						return false
+			return twinPred(fm, func(res *twinResult) bool {
+				for _, df := range res.diffs {
+					if df.Addr == f.addr && df.Kind == f.kind {
+						return true
 					}
-					res := twinCheck(d, c, rv, fm)
-					for _, df := range res.diffs {
-						if df.Addr == f.addr && df.Kind == f.kind {
-							return true
-						}
-					}
-					return false
-				})
-			}
+				}
+				return false
+			})
 		}
 	case "twin-nodiff":
 		pred = func(fm finalMode) func([]Op) bool {
-			return func(c []Op) bool {
-				return safe(func() bool {
-					rv, ok := marks(c)
-					if !ok || len(c) == 0 {
-						return false
-					}
-					res := twinCheck(d, c, rv, fm)
-					return res.mismatch() && len(res.diffs) == 0
-				})
-			}
+			return twinPred(fm, func(res *twinResult) bool {
+				return res.twinPanic == "" && res.mismatch() && len(res.diffs) == 0
+			})
+		}
+	case "twin-panic":
+		pred = func(fm finalMode) func([]Op) bool {
+			return twinPred(fm, func(res *twinResult) bool { return res.twinPanic != "" })
 		}
 	case "accessor":
 		pred = func(finalMode) func([]Op) bool {
 			return func(c []Op) bool {
 				return safe(func() bool {
-					if _, ok := marks(c); !ok || len(c) == 0 || c[len(c)-1].K != "Revert" {
+					if !endsWithRegion(c) {
 						return false
 					}
 					mm, _ := accessorCheck(d, c)
@@ -323,7 +372,7 @@ func reduce(r *mon.Run, d account.AccountDatabase, c Case, f rawFinding, budget 
 		pred = func(finalMode) func([]Op) bool {
 			return func(c []Op) bool {
 				return safe(func() bool {
-					if _, ok := marks(c); !ok || len(c) == 0 || c[len(c)-1].K != "Revert" {
+					if !endsWithRegion(c) {
 						return false
 					}
 					_, acc := staleAccepted(d, c)
@@ -334,19 +383,58 @@ func reduce(r *mon.Run, d account.AccountDatabase, c Case, f rawFinding, budget 
 	}
 	if !pred(fm)(h) {
 		r.Count("findings_not_reproduced_in_reduction", 1)
-		r.Note("finding %s in case %d cut %d did not reproduce on re-execution", f.raw, c.Index, f.cut)
+		r.Note("finding %s in case %d did not reproduce on re-execution", f.raw, c.Index)
 		return
 	}
 	canon := finalMode{D: true, IR: true}
 	if fm != canon && pred(canon)(h) {
 		fm = canon
 	}
+	if !f.global {
+		if fh := focus(h, f.addr); len(fh) < len(h) && pred(fm)(fh) {
+			h = fh
+			r.Count("reductions_started_from_account_focus", 1)
+		}
+	}
 	m := minimize(h, pred(fm), budget)
 	if fm != canon && pred(canon)(m) {
 		fm = canon
 	}
+	// normal form: if the minimal witness of a difference that showed late already
+	// differs right after a revert, report that earlier leak instead (the later
+	// difference is its consequence)
+	if depth < 3 && (f.oracle == "twin" || f.oracle == "twin-nodiff" || f.oracle == "twin-panic") {
+		for j := range m {
+			if m[j].K != "Revert" || (f.label != 0 && m[j].ID != f.label) || (j == len(m)-1 && f.label != 0) {
+				continue
+			}
+			p := m[:j+1]
+			th, ok := twinOf(p, m[j].ID)
+			if !ok {
+				continue
+			}
+			var res *twinResult
+			if !safe(func() bool { res = twinCheck(d, p, th, fm); return true }) || !res.mismatch() {
+				continue
+			}
+			f2 := rawFinding{caseIdx: f.caseIdx, hist: append([]Op(nil), p...), label: m[j].ID, raw: f.raw}
+			switch {
+			case res.twinPanic != "":
+				f2.oracle, f2.kind, f2.global = "twin-panic", "twin-execution-panics", true
+			case len(res.diffs) == 0:
+				f2.oracle, f2.kind, f2.global = "twin-nodiff", "no-leaf-diff", true
+			default:
+				f2.oracle, f2.kind, f2.addr = "twin", res.diffs[0].Kind, res.diffs[0].Addr
+			}
+			r.Count("findings_normalised_to_earlier_leak", 1)
+			c2 := c
+			c2.Final = fm
+			reduceDepth(r, d, c2, f2, budget, depth+1)
+			return
+		}
+	}
 	r.Count("findings_minimised", 1)
-	w := Witness{Case: Case{Mode: c.Mode, Hist: m, Final: fm, Index: c.Index}, Oracle: f.oracle, History: describe(m),
+	w := Witness{Case: Case{Mode: c.Mode, Hist: m, Final: fm, Index: c.Index}, Oracle: f.oracle, Region: f.label, History: describe(m),
 		FromCase: c.Index, FromLen: len(c.Hist)}
 	suffix := ""
 	if !fm.D {
@@ -355,42 +443,48 @@ func reduce(r *mon.Run, d account.AccountDatabase, c Case, f rawFinding, budget 
 	if !fm.IR {
 		suffix += ":commit-only"
 	}
-	cls := classify(d, m, f.addr, f.global)
+	cls, detail := classify(d, m, f.addr, f.global, f.oracle == "accessor", f.label)
+	hist := strings.Join(trim(w.History), "; ")
 	switch f.oracle {
-	case "twin", "twin-nodiff":
-		rv, _ := marks(m)
-		res := twinCheck(d, m, rv, fm)
+	case "twin", "twin-nodiff", "twin-panic":
+		th, _ := twinOf(m, f.label)
+		res := twinCheck(d, m, th, fm)
 		w.Roots = map[string]string{"intermediate_original": res.irO.Hex(), "intermediate_twin": res.irT.Hex(),
 			"commit_original": res.crO.Hex(), "commit_twin": res.crT.Hex()}
 		w.AllDiffs = res.diffs
-		what := "roots differ but the committed tries have no differing leaf"
-		kind := "no-leaf-diff"
+		what := "IntermediateRoot differs, but the committed tries have no differing leaf (Commit roots equal)"
+		kind := f.kind
+		if res.twinPanic != "" {
+			what = "the twin execution panics: " + res.twinPanic
+		}
 		for i := range res.diffs {
 			if res.diffs[i].Addr == f.addr && res.diffs[i].Kind == f.kind {
 				w.Diff = &res.diffs[i]
-				kind = f.kind
-				what = fmt.Sprintf("account %s %s", w.Diff.Name, w.Diff.Kind)
+				what = fmt.Sprintf("account %s %s %s", w.Diff.Name, w.Diff.Kind, w.Diff.Fields)
 				if len(w.Diff.Slots) > 0 {
 					what += fmt.Sprintf(" (slot %s: original %q, twin %q)", w.Diff.Slots[0].Key, w.Diff.Slots[0].Orig, w.Diff.Slots[0].Twin)
 				}
 			}
 		}
+		without := fmt.Sprintf("without the region reverted by Revert #%d", f.label)
+		if f.label == 0 {
+			without = "without its reverted regions"
+		}
 		r.Violation("C04:twin-root:"+cls+":"+kind+suffix,
-			fmt.Sprintf("[%s] root after the history %v differs from the root of the same history without its reverted regions: %s", c.Mode, strings.Join(trim(w.History), "; "), what), w)
+			fmt.Sprintf("[%s] root after the history %v differs from the root of the same history %s: %s (account kind before the region: %s)", c.Mode, hist, without, what, detail), w)
 	case "accessor":
-		w.Accessor, w.Was, w.Now = f.item.label(), f.was, f.now
-		if mm, _ := accessorCheck(d, m); true {
-			for _, x := range mm {
-				if x.Item.Acc == f.item.Acc && x.Item.Addr == f.item.Addr && x.Item.Arg == f.item.Arg {
-					w.Was, w.Now = x.Was, x.Now
-				}
+		w.Accessor = f.item.label()
+		mm, _ := accessorCheck(d, m)
+		for _, x := range mm {
+			if x.Item.Acc == f.item.Acc && x.Item.Addr == f.item.Addr && x.Item.Arg == f.item.Arg {
+				w.Was, w.Now = x.Was, x.Now
 			}
 		}
 		r.Violation("C04:accessor:"+f.item.Acc+":"+cls,
-			fmt.Sprintf("[%s] %s answered %q when the snapshot was taken and %q after reverting to it; history %v", c.Mode, w.Accessor, w.Was, w.Now, strings.Join(trim(w.History), "; ")), w)
+			fmt.Sprintf("[%s] %s answered %q when the snapshot was taken and %q after reverting to it; history %v (account kind before the region: %s)", c.Mode, w.Accessor, w.Was, w.Now, hist, detail), w)
 	case "stale":
 		r.Violation("C04:revert:stale-revision-accepted",
-			fmt.Sprintf("[%s] a revision id taken inside a region that was reverted is still accepted by RevertToSnapshot; history %v", c.Mode, strings.Join(trim(w.History), "; ")), w)
+			fmt.Sprintf("[%s] a revision id taken inside a region that was reverted is still accepted by RevertToSnapshot; history %v", c.Mode, hist), w)
 	}
 }
 
@@ -407,6 +501,7 @@ func trim(s []string) []string {
 func bootMode(mode string) {
 	env.ScratchDir("verif-c04-")
 	env.BootServices(env.Forks{})
+	account.Init() // the package logger (IncreaseNonce logs through it); the node's main does the same
 	common.LocalChainConfig.Proposal002Block = 0
 	common.SetBlockHeight(10)
 	if !common.IsProposal002() {
@@ -461,6 +556,9 @@ func runCases(r *mon.Run, cases []Case, workers int, perClass int, budget int) {
 	close(ch)
 	wg.Wait()
 
+	if os.Getenv("VERIF_C04_TIMING") != "" {
+		fmt.Fprintf(os.Stderr, "phase1 done %v\n", time.Now())
+	}
 	var all []rawFinding
 	for _, fs := range findings {
 		all = append(all, fs...)
@@ -470,7 +568,7 @@ func runCases(r *mon.Run, cases []Case, workers int, perClass int, budget int) {
 		if all[i].caseIdx != all[j].caseIdx {
 			return all[i].caseIdx < all[j].caseIdx
 		}
-		return all[i].cut < all[j].cut
+		return len(all[i].hist) < len(all[j].hist)
 	})
 	taken := map[string]int{}
 	var todo []rawFinding
@@ -521,7 +619,7 @@ func childMain(args []string) {
 			r.Sample(map[string]interface{}{"mode": mode, "index": cases[i].Index, "final": cases[i].Final, "history": trim(describe(cases[i].Hist))})
 		}
 	}
-	runCases(r, cases, workers, r.Pick(4, 12), 2500)
+	runCases(r, cases, workers, r.Pick(2, 6), 800)
 	r.Count("mode_"+mode+"_histories", int64(len(cases)))
 	cleanupScratch()
 	r.Finish(mon.Coverage{Evaluations: int64(len(cases))})
@@ -548,7 +646,7 @@ func main() {
 		}
 		bootMode(w.Case.Mode)
 		fmt.Printf("replaying %s history (%s):\n  %s\n", w.Case.Mode, v.Signature, strings.Join(describe(w.Case.Hist), "\n  "))
-		runCases(r, []Case{w.Case}, 1, 1000, 2500)
+		runCases(r, []Case{w.Case}, 1, 1000, 800)
 		cleanupScratch()
 		r.Finish(mon.Coverage{Evaluations: 2, DistinctNontrivial: 2, Rule: "replay of one recorded history"})
 	}
